@@ -125,6 +125,7 @@ def _elements_of(x, n=None):
 
 
 def elementwise(I, op, a, b, node):
+    _note_carried(I, node, a, b)
     ea = _elements_of(a)
     eb = _elements_of(b)
     if (ea is not None and isinstance(a, Arr)) or (eb is not None and isinstance(b, Arr)):
@@ -212,7 +213,14 @@ def _scalar_dtype(v):
     return None
 
 
+def _note_carried(I, node, *xs):
+    for x in xs:
+        if isinstance(x, Arr) and x.meta.get("carried"):
+            I.event("loop-carried-read", node, "%s holds what earlier iterations of the loop at line %d left in it" % x.meta["carried"])
+
+
 def elementwise_compare(I, sym, a, b, node):
+    _note_carried(I, node, a, b)
     sa = a.shape if isinstance(a, Arr) else ()
     sb = b.shape if isinstance(b, Arr) else ()
     shape = broadcast(I, sa, sb, node)
@@ -419,6 +427,8 @@ def load(I, arr, idx, node, env):
     if arr.shape is None:
         return Unknown("subscript of array with unknown shape")
     items = _expand_index(I, arr, idx, node)
+    if arr.meta.get("carried"):
+        I.event("loop-carried-read", node, "%s holds what earlier iterations of the loop at line %d left in it" % arr.meta["carried"])
     for it in items:
         v = it.val if isinstance(it, Arr) and it.dtype != "bool" else it
         w = _index_can_wrap(I, v) if isinstance(v, Expr) else None
@@ -441,6 +451,22 @@ def load(I, arr, idx, node, env):
             return Arr(it.shape, arr.at(v) if isinstance(v, Expr) else Unknown("gather index"), arr.dtype, {"gather_of": (arr, it)})
     if isinstance(arr, SymArr) and arr.ndim >= 2 and len(items) == arr.ndim and all(isinstance(it, Expr) for it in items) and arr.meta.get("role") != "field":
         return alg.fn("at", arr.sym, *items, pos=arr.elempos)
+    base_sym = arr.sym if isinstance(arr, SymArr) else None
+    if base_sym is None and arr.meta.get("param") and arr.meta.get("role") is None:
+        ea = _single_atom(arr.val) if isinstance(arr.val, Expr) else None
+        if ea is not None and ea.kind == "fn" and ea.name == "elem" and isinstance(ea.args[0], Expr):
+            base_sym = ea.args[0]  # a dtype-converted copy of a caller's array still holds the caller's entries
+    if (base_sym is not None and arr.ndim >= 2 and len(items) == arr.ndim and arr.meta.get("role") != "field" and arr.meta.get("spec") is None
+            and all(isinstance(it, Expr) or (isinstance(it, SliceV) and it.is_full()) for it in items) and any(isinstance(it, Expr) for it in items)):
+        # a row / column / line of a caller's array: entry k of the result is the caller's entry at (fixed indices, k)
+        shp, ix = [], []
+        for ax, it in enumerate(items):
+            if isinstance(it, Expr):
+                ix.append(it)
+            else:
+                shp.append(arr.shape[ax])
+                ix.append(alg.fn("idx", arr.shape[ax], integer=True))
+        return Arr(tuple(shp), alg.fn("at", base_sym, *ix, pos=getattr(arr, "elempos", False)), arr.dtype, {"line_of": arr})
     if "diff_of" in arr.meta and len(items) == 1 and isinstance(items[0], Expr):
         base = arr.meta["diff_of"]
         if isinstance(base, SymArr):
@@ -717,6 +743,7 @@ def store(I, arr, idx, v, node, env):
     if level == "all":
         new.val = sv
         new.meta.pop("lvl0", None)
+        new.meta.pop("carried", None)  # completely overwritten: nothing is carried over
         if isinstance(v, Arr) and "lvl0" in v.meta and level_axis(arr) is not None:
             new.meta["lvl0"] = v.meta["lvl0"]  # the stored value itself differs at level slot 0
     elif level[0] == "const":
@@ -1063,6 +1090,13 @@ def builtin(I, name, args, kwargs, node, env):
             return isinstance(x, str)
         if tn in ("float", "int"):
             return isinstance(x, Expr)
+        if tn == "dict":
+            if isinstance(x, Tup):
+                return x.kind == "dict"
+            if isinstance(x, Opaque) and "is_dict" in x.attrs:
+                return bool(x.attrs["is_dict"])
+            if isinstance(x, (Expr, str, Arr)) or x is None:
+                return False
         return Unknown("isinstance")
     if name == "sum":
         x = args[0]
@@ -1097,6 +1131,33 @@ def builtin(I, name, args, kwargs, node, env):
         if isinstance(args[0], SetV):
             return SetV(args[0].items)
         return Unknown("set(%r)" % (args[0],))
+    if name == "sorted":
+        x = args[0]
+        if isinstance(x, Tup) and x.kind == "dict":
+            x = Tup([k for k, _ in x.items], "list")
+        if isinstance(x, SetV):
+            x = Tup(list(x.items), "list")
+        if "key" in kwargs or not isinstance(x, Tup) or any(isinstance(i, GenList) for i in x.items):
+            return Unknown("sorted(%r)" % (x,))
+        items = list(x.items)
+        rev = kwargs.get("reverse") is True
+        if all(isinstance(i, str) and type(i) is str for i in items):
+            return Tup(sorted(items, reverse=rev), "list")
+        if all(isinstance(i, Expr) and i.as_const() is not None and i.as_const().im == 0 for i in items):
+            return Tup(sorted(items, key=lambda e: e.as_const().re, reverse=rev), "list")
+        if all(isinstance(i, Expr) for i in items) and len(items) <= 3:
+            # the order of symbolic values is decided comparison by comparison (one explored path per ordering)
+            out = []
+            for it in items:
+                pos = len(out)
+                for k, o in enumerate(out):
+                    lt = I.cmp_expr(it - o, "<")
+                    if I.truth(lt) if not isinstance(lt, bool) else lt:
+                        pos = k
+                        break
+                out.insert(pos, it)
+            return Tup(out[::-1] if rev else out, "list")
+        return Unknown("sorted(%r)" % (x,))
     if name == "slice":
         xs = list(args) + [None] * (3 - len(args))
         if len(args) == 1:
@@ -1662,6 +1723,8 @@ def np_count_nonzero(I, args, kwargs, node):
     x = args[0]
     if isinstance(x, Arr) and x.meta.get("positions_of") is not None:
         return x.meta["positions_of"].shape[0]  # entries assumed in range, as the membership loop assumes
+    if isinstance(x, Arr) and isinstance(x.val, Pred) and kwargs.get("axis") is None:
+        return alg.fn("countwhere", x.val.e, x.val.op, integer=True)  # number of entries e with  e op 0
     return Unknown("np.count_nonzero")
 
 
@@ -1884,6 +1947,8 @@ EXT = {
     "numpy.array": np_array,
     "numpy.asarray": np_asarray,
     "numpy.asanyarray": np_asarray,
+    "numpy.ascontiguousarray": np_asarray,
+    "numpy.asfortranarray": np_asarray,
     "numpy.ones": np_full("ones"),
     "numpy.zeros": np_full("zeros"),
     "numpy.empty": np_full("empty"),
